@@ -110,8 +110,21 @@ def setOptOutInformation (s : St) (op : Nat) : St :=
   { s with optOutsToFinish := upd s.optOutsToFinish (completionEpoch s) (s.optOutsToFinish (completionEpoch s) ++ [op]),
            optOutFinishEpoch := upd s.optOutFinishEpoch op (some (completionEpoch s)) }
 
+/-- consensus_keys.go: CompleteOperatorKeyRemovalForChainID (errors are logged and ignored) -/
+def completeRemoval (s : St) (op : Nat) : St :=
+  if !s.registered op then s
+  else if !s.removing op then s
+  else
+    match s.fwd op with
+    | none => s                    -- (nil key: cannot happen while the marker is set)
+    | some key =>
+      { s with fwd := upd s.fwd op none, fwd2 := upd s.fwd2 op none, rev := upd s.rev key none,
+               removing := upd s.removing op false }
+
 /-- opt.go: OptOut + consensus_keys.go: InitiateOperatorKeyRemovalForChainID +
-impl_operator_hooks.go: AfterOperatorKeyRemovalInitiated -/
+impl_operator_hooks.go: AfterOperatorKeyRemovalInitiated (after "fix: opt-out before the key is
+active"): the opt-out is scheduled when the current key *or the key it replaced during this
+epoch* is in the validator set, otherwise the removal is completed at once. -/
 def optOut (s : St) (op : Nat) : Out × St :=
   if !s.registered op then (.errNotOperator, s)
   else if !(s.optedIn op && !s.jailed op) then (.errNotOptedIn, s)
@@ -120,8 +133,9 @@ def optOut (s : St) (op : Nat) : Out × St :=
     | none => (.panic, s)          -- nil key handed to the hook
     | some key =>
       let s1 := { s with optedIn := upd s.optedIn op false, removing := upd s.removing op true }
-      if has s.vs.vals key then (.ok, setOptOutInformation s1 op)
-      else (.ok, { s1 with rev := upd s1.rev key none })
+      let prevIn := match s.prevKey op with | some pk => has s.vs.vals pk | none => false
+      if has s.vs.vals key || prevIn then (.ok, setOptOutInformation s1 op)
+      else (.ok, completeRemoval s1 op)
 
 /-- slash.go: SetJailedState through impl_sdk.go: Jail / Unjail (by consensus address) -/
 def setJailed (s : St) (key : Nat) (b : Bool) : St :=
@@ -129,7 +143,8 @@ def setJailed (s : St) (key : Nat) (b : Bool) : St :=
   | none => s
   | some op => if s.hasInfo op then { s with jailed := upd s.jailed op b } else s
 
-/-- impl_delegation_hooks.go: AfterUndelegationStarted. Result: (panicked, state). -/
+/-- impl_delegation_hooks.go: AfterUndelegationStarted (after "fix: undelegation in the block
+that finishes an opt-out"). Result: (outcome, state). -/
 def undelegationStarted (s : St) (op rec : Nat) : Out × St :=
   let hold (slot : Int) : St :=
     { s with undelToMature := upd s.undelToMature slot (s.undelToMature slot ++ [rec]),
@@ -138,7 +153,7 @@ def undelegationStarted (s : St) (op rec : Nat) : Out × St :=
   if s.removing op then
     match s.optOutFinishEpoch op with
     | some f => (.ok, hold f)
-    | none => (.panic, s)          -- epoch −1 ⇒ nil store key ⇒ panic
+    | none => (.ok, s)             -- finish epoch already consumed (closing block): not held
   else if !s.registered op then (.ok, s)
   else
     match s.fwd op with
@@ -161,17 +176,6 @@ def epochEndHook (s : St) (e : Int) : St :=
     pendingUndel := s.undelToMature e,
     undelToMature := upd s.undelToMature e [],
     epoch := e + 1 }
-
-/-- consensus_keys.go: CompleteOperatorKeyRemovalForChainID (errors are logged and ignored) -/
-def completeRemoval (s : St) (op : Nat) : St :=
-  if !s.registered op then s
-  else if !s.removing op then s
-  else
-    match s.fwd op with
-    | none => s                    -- (nil key: cannot happen while the marker is set)
-    | some key =>
-      { s with fwd := upd s.fwd op none, fwd2 := upd s.fwd2 op none, rev := upd s.rev key none,
-               removing := upd s.removing op false }
 
 /-- abci.go: EndBlock — release of one pending undelegation -/
 def releaseUndel (s : St) (rec : Nat) : St :=
@@ -219,5 +223,36 @@ def step (s : St) : Op → Out × St
   | .endBlock power maxVals => (.ok, endBlock s power maxVals)
 
 def run (s : St) (ops : List Op) : St := ops.foldl (fun s o => (step s o).2) s
+
+
+/-! ## pre-fix shapes, kept as regression counter-examples (findings F-07a, F-16a) -/
+
+/-- AfterOperatorKeyRemovalInitiated before the fix: key not in the set ⇒ only the reverse lookup
+is deleted (marker and forward indexes stay, no finish epoch) -/
+def optOutPreFix (s : St) (op : Nat) : Out × St :=
+  if !s.registered op then (.errNotOperator, s)
+  else if !(s.optedIn op && !s.jailed op) then (.errNotOptedIn, s)
+  else
+    match s.fwd op with
+    | none => (.panic, s)
+    | some key =>
+      let s1 := { s with optedIn := upd s.optedIn op false, removing := upd s.removing op true }
+      if has s.vs.vals key then (.ok, setOptOutInformation s1 op)
+      else (.ok, { s1 with rev := upd s1.rev key none })
+
+/-- AfterUndelegationStarted before the fix: a missing finish epoch reads as −1 ⇒ nil store key ⇒ panic -/
+def undelegationStartedPreFix (s : St) (op rec : Nat) : Out × St :=
+  if s.removing op then
+    match s.optOutFinishEpoch op with
+    | some _ => undelegationStarted s op rec
+    | none => (.panic, s)
+  else undelegationStarted s op rec
+
+def stepPreFix (s : St) : Op → Out × St
+  | .optOut op => optOutPreFix s op
+  | .undelegate op rec => undelegationStartedPreFix s op rec
+  | o => step s o
+
+def runPreFix (s : St) (ops : List Op) : St := ops.foldl (fun s o => (stepPreFix s o).2) s
 
 end ExoVerif.ConsKeys
